@@ -87,6 +87,10 @@ package client
 //@   loop 0 invariant c.Auth.Enabled == old(c.Auth.Enabled) && c.InterleavedMode == old(c.InterleavedMode)
 //@   loop 0 invariant c.Auth.Enabled ==> c.Auth.NTSKEFetcher.VerifKeys32()
 //@   loop 0 invariant c.prev.cTxTime == before(c.prev.cTxTime) && c.prev.cRxTime == before(c.prev.cRxTime) && c.prev.sRxTime == before(c.prev.sRxTime)
+// The origin match, stated where the offset is computed (and used as a lemma by the postconditions below): a response
+// taken as interleaved echoes the request's receive timestamp field, any other the request's transmit timestamp field.
+//@   callsite ntp.ClockOffset 0 requires !interleavedResp ==> echoes(lastpkt(), lastsent(), 40)
+//@   callsite ntp.ClockOffset 0 requires interleavedResp ==> echoes(lastpkt(), lastsent(), 32)
 //@   callsite ntp.ClockOffset 0 requires same(t2, sTxTime) && (interleavedResp ==> interleavedReq && ntpresp.OriginTime == c.prev.cRxTime)
 //@   callsite ntp.ClockOffset 0 requires !interleavedResp ==> same(t0, cTxTime1) && same(t1, sRxTime) && same(t3, cRxTime) && ntpresp.OriginTime == ntpreq.TransmitTime
 //@   callsite ntp.ClockOffset 0 requires interleavedResp ==> same(t0, ntp.TimeFromTime64(c.prev.cTxTime, cTxTime0)) && same(t1, ntp.TimeFromTime64(c.prev.sRxTime, cTxTime0)) && same(t3, ntp.TimeFromTime64(c.prev.cRxTime, cTxTime0))
